@@ -13,7 +13,7 @@ from trio._core import _run as trun
 
 from . import bootstrap  # noqa: F401
 from .aio import FakeSocket, proto_sig
-from .core import STOP, Chooser, ConnRec, HarnessError, Instance, RecordingLogger, ScriptApp, WorldBase
+from .core import STOP, Chooser, ConnRec, HarnessError, Instance, RecordingLogger, ScriptApp, WorldBase, install_logger
 
 MAX_STEPS = 20000
 
@@ -392,11 +392,7 @@ class TrioWorld(WorldBase):
         cfg = self.scenario.get("config_object") or Config()
         world = self
 
-        class _Logger(self.scenario.get("logger_base") or RecordingLogger):  # type: ignore[misc]
-            pass
-
-        _Logger.world = world
-        cfg.logger_class = _Logger
+        install_logger(self, cfg, "trio")  # scenario["logger"] = "real" | "statsd": hypercorn's own logger classes
         for key, value in self.scenario.get("config", {}).items():
             setattr(cfg, key, value)
         return cfg
